@@ -13,8 +13,9 @@ Cfg  == JsonDeserialize(IOEnv.VERIF_CFG)
 Cwd  == P(TRUE, Cfg.cwd)
 Esm  == Cfg.esm
 
-DirNames  == IF Small THEN { Dot, DotDot, <<"d">>, <<"x", ".", "y">> }
-             ELSE { Dot, DotDot, <<"d">>, <<".", "h">>, <<".", ".", "v">>, <<"x", ".", "y">>, <<"d", ".", "t", "s">> }
+DirNames  == IF Small THEN { Dot, DotDot, <<"d">>, <<"D">>, <<"x", ".", "y">> }
+             ELSE { Dot, DotDot, <<"d">>, <<"D">>, <<".", "h">>, <<".", ".", "v">>, <<"x", ".", "y">>, <<"d", ".", "t", "s">> }
+             \* (d, D: two different directories on a case-sensitive file system)
              \* (.h, ..v: ordinary names that begin with dots - a specifier still has to start with ./ or ../)
 FileNames == { <<"A", ".", "t", "s">>, <<"a", ".", "b", ".", "t", "s">>, <<"t", "s", ".", "t", "s">>,
                <<"x", ".", "t", "s", ".", "t", "s">>, <<"j", ".", "j", "s", ".", "t", "s">>, <<".", "h", ".", "t", "s">> }
